@@ -75,6 +75,9 @@ def write_header(langs, path, known_prefix=None):
             f.write("static const uint8_t WLEN_%s[2048] = {%s};\n" % (lid, ",".join(str(len(w)) for w in L["words"])))
             f.write("static const uint8_t NFCLEN_%s[2048] = {%s};\n" % (lid, ",".join(str(nfc_len(w)) for w in L["words"])))
             f.write("#define SEPLEN_%s %d\n#define SEPNFC_%s %d\n" % (lid, len(L["separator"]), lid, nfc_len(L["separator"])))
+            if not L["is_sorted"]:
+                perm = sorted(range(len(L["words"])), key=lambda i: L["words"][i])
+                f.write("static const uint16_t PERM_%s[2048] = {%s};\n" % (lid, ",".join(map(str, perm))))
             kp = known_prefix.get(lid, [])
             f.write("#define NKNOWN_%s %d\n" % (lid, len(kp)))
             f.write("static const char* const KNOWN_PREFIX_%s[%d][2] = {%s};\n" % (
